@@ -38,7 +38,7 @@ ASSUMPTIONS = ["datetime / timedelta / Fraction of the standard library are the 
                "GUI / green-thread scheduler classes are constructed with a stub toolkit object (their `now` does not use it)"]
 CASES = {"quick": 20000, "thorough": 2000000}
 REQUIRED = {
-    "aligned_roundtrips": {"quick": 10000, "thorough": 1000000},
+    "aligned_roundtrips": {"quick": 9000, "thorough": 900000},
     "monotone_pairs": {"quick": 3000, "thorough": 300000},
     "set:zones": 7,
     "set:shapes": 5,
